@@ -171,7 +171,7 @@ def run(ctx):
     nprog = 50 if quick else 300
     ctx.rule = ("(dataset, access program) pairs. Dataset: 0..6 written row groups of 1..13 rows (+ fabricated empty and duplicated, i.e. "
                 "structurally equal, descriptors), simple file (opened by path or from an open file object) or hive directory (opened by "
-                "directory or _metadata), 0..2 partition columns, optionally a written index, 0..3 extra columns over 15 dtypes; every frame "
+                "directory or _metadata), 0..2 partition columns, optionally a written index, 0..3 extra columns over 15 dtypes, page size default/64/200 bytes (several data pages per chunk), data page v1/v2; every frame "
                 "carries the injective columns id/u/g. Program: <= 3 handle operations from {slice [a:b:k] with None/negative/out-of-range/zero "
                 "step, integer pick, pickle, copy, deepcopy} then one of to_pandas / iter_row_groups(categories?) / head(n at every "
                 "row-group boundary +-1) / count / len with columns None|subset in any order|repeated|empty|unknown and index "
@@ -214,6 +214,7 @@ def run(ctx):
         ctx.count("row_groups", len(b["rgs"]))
         ctx.count("scheme/open", ds["scheme"] + "/" + ds["open"])
         ctx.count("partition_columns", len(b["pcols"]))
+        ctx.count("page_size/data_page_version", "%s/v%s" % (ds.get("page_size"), ds.get("dpv", 1)))
         ctx.count("empty_row_groups", sum(1 for g in b["rgs"] if g[1] == 0))
         ctx.count("equal_descriptors", len(b["rgs"]) - len(set(g[0] for g in b["rgs"])))
         # standing assumptions of the theorems, checked on this dataset
